@@ -66,11 +66,12 @@ def native_roundtrip(seed=0, n_hist=40):
     from . import refmodel as rm
     rng = random.Random(seed)
     lines = ["1;255;0;0;17;2.2", "1;1;0;0;6;", "1;1;1;0;0;20.5", "1;255;3;0;0;150", "1;255;3;0;0;-3", "1;255;3;0;0;100", "1;255;3;0;0;0", "1;255;3;0;11;é sketch",
-             "1;255;3;0;12;", "2;255;0;0;-5;v", "2;254;0;0;99999999999;d;e", "2;254;1;0;-7;x", "1;255;3;0;22;123", "1;255;3;0;22;-5", "2;255;3;0;22;-1", "255;255;3;0;3;", "0;255;0;0;18;2.2.0", "1;255;3;0;32;"]
+             "1;255;3;0;12;", "2;255;0;0;-5;v", "2;254;0;0;99999999999;d;e", "2;254;1;0;-7;x", "1;255;3;0;22;123", "1;255;3;0;22;-5", "2;255;3;0;22;-1", "255;255;3;0;3;", "0;255;0;0;18;2.2.0", "1;255;3;0;32;",
+             "1;1;1;0;47;", "1;1;1;0;24;0", "1;2;0;0;0;", "1;2;1;0;16;", "1;255;3;0;11;", "1;255;0;0;17;", "1;1;1;0;47; pad"]
     d = tempfile.mkdtemp(prefix="c13_")
     n = 0
     try:
-        edge = [["255;255;0;0;17;1.4", "255;255;3;0;3;", "255;255;3;0;3;"], ["254;255;0;0;17;2.2", "255;255;3;0;3;"], ["7;255;0;0;0;2.2.0", "7;1;0;0;0;d"],
+        edge = [["1;255;0;0;17;2.2", "1;1;0;0;36;info", "1;1;1;0;47;", "1;1;1;0;24;hello", "1;2;0;0;6;", "1;2;1;0;0;"], ["255;255;0;0;17;1.4", "255;255;3;0;3;", "255;255;3;0;3;"], ["254;255;0;0;17;2.2", "255;255;3;0;3;"], ["7;255;0;0;0;2.2.0", "7;1;0;0;0;d"],
                 ["0;255;0;0;18;2.2", "255;255;3;0;3;", "1;255;0;0;17;", "1;255;3;0;11;", "253;255;0;0;17;x", "255;255;3;0;3;", "255;255;3;0;3;"]]
         for h in range(n_hist + len(edge)):
             gw, tr = native.make_gateway("2.2", ())
